@@ -22,4 +22,14 @@ PROPS = {
                      "order keys are at least as long as the trie is deep"],
         shards={"quick": 8, "thorough": 16},
     ),
+    "C19": dict(
+        pkg="provider/internal/queue", test="TestVerifC19", model="C19", level="proof", diff_is_failure=True,
+        rule="a case is a history of enqueue/dequeue/dequeue-matching/remove/clear/persist/restart/drain ops on a "
+             "ProvideQueue (+ reprovide-queue ops) with overlapping prefixes incl. the empty prefix; after every op "
+             "the full queue order and key set are compared with the model; non-trivial = >=1 absorption of queued "
+             "longer prefixes by a shorter one and >=1 partial removal (keys removed, prefix stays); distinct = "
+             "distinct history text",
+        trusted=["go-datastore MapDatastore + key cleaning; SHA-256 not modelled (keys carry their real identifier bits)"],
+        assumptions=["Enqueue precondition: supplied keys match the supplied prefix (checked at the call sites by C17)"],
+    ),
 }
